@@ -11,8 +11,24 @@ def build(seed):
     checks = [{"op": "verify", "at": ""}, {"op": "diff", "at": ""}, {"op": "create", "at": "", "h": gen.fmt_subset(rnd, (1, 2)), "now": "2026-03-01 12:30:00"}]
     if rnd.random() < 0.3:
         checks[0]["spell"] = rnd.choice(["slash", "relative", "cwd", "dot"])
+    late = None
+    dirs_now = sorted(d for d in fs.dirs if d and d not in truth["removed"])
+    if dirs_now and rnd.random() < 0.3:
+        # a directory pattern `name/` given only now: it hides what is INSIDE directories of that name, not the
+        # directories themselves
+        nm = rnd.choice(dirs_now).split("/")[-1]
+        late = nm + "/"
+        for c in checks:
+            c["i"] = [late]
+        import pathspec
+        sp = pathspec.PathSpec.from_lines("gitwildmatch", [late])
+        def hid(p):
+            parts = p.split("/")
+            return any(sp.match_file("/".join(parts[: i + 1])) for i in range(len(parts)))
+        for k in truth:
+            truth[k] = {p for p in truth[k] if not hid(p)}
     sc = {"seed": seed, "profile": "c03", "root": rnd.choice(["root", "my root"]), "tree": tree, "ops": seal_ops + mut_ops + checks,
-          "c03": {"altered": sorted(truth["altered"]), "removed": sorted(truth["removed"]), "added": sorted(truth["added"]), "patterns": pats, "n_seal": len(seal_ops), "n_mut": len(mut_ops)}}
+          "c03": {"altered": sorted(truth["altered"]), "removed": sorted(truth["removed"]), "added": sorted(truth["added"]), "patterns": pats, "late_pattern": late, "n_seal": len(seal_ops), "n_mut": len(mut_ops)}}
     return sc
 
 
